@@ -13,6 +13,7 @@
 -/
 import SA.Base.Util
 import SA.Gen.C02
+import SA.Model.SessLife
 namespace SA.Accept
 
 structure ASt where
@@ -103,6 +104,7 @@ def handleXtalk (toks : List String) : String :=
 /-- `isolate <carrier> <ending>`: whatever way connection A ends, B and later connections are unaffected -/
 def handleIsolate (toks : List String) : String :=
   match toks with
+  | [_, "lastclose"] => SessLife.lastCloseResult
   | [_, _] => "ok"
   | _ => "bad-op"
 
